@@ -130,6 +130,15 @@ CHECKS = {
         note="Trusted: TLC, lib/gen_files.py, the in-process driver (in-package test files are plain files there; the real drivers add test variants).",
         technique="TLA+ model (Files.tla) checked by TLC; replay of every (file class, content, configuration) scenario into the real analyzers",
         design="5/C14"),
+    "C17": dict(
+        text="Trace validation against Codes.tla: every diagnostic of the all-codes program (16 codes, several anchor shapes incl. receiver "
+             "mutations, package-level single-line declarations and the last line of a file) and of seeded cross-package programs is turned "
+             "into a Diag event (code, number of distinct [CODE] tokens, analyzer, help link, file class) followed by a Suppress event obtained "
+             "by re-analysing the program with `// @ignore <its code>` appended to its line, plus Exit events of text-mode runs of the real "
+             "binary; TLC accepts the trace only if every event satisfies the property, and all 16 codes must have been seen.",
+        note="Trusted: TLC, the message parsing in lib/checks/c17.py; the programs are fixed families, not enumerated by TLC.",
+        technique="TLA+ code table (Codes.tla) + trace specification (DiagTrace.tla): traces of real runs validated by TLC",
+        design="5/C17"),
 }
 
 NOT_YET = "check not built yet in this session; the property is in scope of the TLA+ specification (see DESIGN.md section 5) and will be claimed when its replay binding is in place"
